@@ -144,6 +144,9 @@ func c10extra() map[string]interface{} {
 		}),
 		"panicstr": func() string { panic("a function panicking with a plain string") },
 		"panicerr": func() string { panic(fmt.Errorf("a function reporting an error")) },
+		"bumpi":    func(p *int64) int64 { *p++; return *p },
+		"bumpf":    func(p *float64) float64 { *p++; return *p },
+		"bumps":    func(p *string) string { *p += "+"; return *p },
 	}
 }
 
@@ -302,6 +305,19 @@ func c10run(c *fw.Ctx, idx int) {
 	posA := &c10unit{name: "positional-yield-argument-child-a", p: posp("/posa.jet")}
 	units = append(units, posA, &c10unit{name: "positional-yield-argument-child-b", p: posp("/posb.jet"), share: posA},
 		&c10unit{name: "positional-yield-argument-layout", p: posp("/poslayout.jet"), share: posA})
+	// Go functions with pointer parameters called with literals and with variables bound to literals: whatever the call
+	// does (it is rejected: a float64 is no *float64), the parsed template is what it was and renders the same again
+	units = append(units,
+		c10probeUnit("pointer-parameter-given-a-literal", `{{ n := 10 }}{{ try }}{{ bumpf(n) }}{{ catch }}E{{ end }};n={{ n }}|{{ try }}{{ bumpi(n) }}{{ catch }}E{{ end }}|{{ try }}{{ bumpf(2.5) }}{{ catch }}E{{ end }}|{{ f := 1.5 }}{{ try }}{{ bumpf(f) }}{{ catch }}E{{ end }};f={{ f }}|{{ try }}{{ bumps("lit") }}{{ catch }}E{{ end }}`, prog.Value{}, false))
+	// dump() reports the globals of the Set; a template variable named like one of them changes nothing about the Set
+	dumpp := func(main string) *prog.Program {
+		return &prog.Program{Main: main, Vars: map[string]prog.Value{}, Globals: map[string]prog.Value{"sitetitle": prog.Str("Site"), "sitelang": prog.Str("en")}, Data: prog.Str("a-context"), HasData: true, Files: []*prog.File{
+			{Path: "/dumps.jet", Body: []prog.Node{&prog.RawFail{Src: `{{ sitetitle := "local" }}{{ if true }}{{ sitelang := "xx" }}{{ d := dump() }}{{ len(d) > 0 }}{{ d2 := dump(2) }}{{ len(d2) > 0 }}{{ end }}:{{ sitetitle }}`}}},
+			{Path: "/globals.jet", Body: []prog.Node{&prog.RawFail{Src: `[{{ sitetitle }}|{{ sitelang }}|{{ isset(sitetitle) }}]`}}},
+		}}
+	}
+	dumpFirst := &c10unit{name: "dump-beside-variables-named-like-globals", p: dumpp("/dumps.jet")}
+	units = append(units, dumpFirst, &c10unit{name: "globals-rendered", p: dumpp("/globals.jet"), share: dumpFirst})
 	var incFirst *c10unit
 	for _, v := range [][2]string{{"a.jet", "/parts/"}, {"b.jet", "/alt/"}, {"missing.jet", "/parts/"}, {"b.jet", "/parts/"}} {
 		u := &c10unit{name: "include-computed-" + strings.TrimSuffix(v[0], ".jet") + "-" + strings.Trim(v[1], "/"), p: incp, share: incFirst}
